@@ -651,6 +651,106 @@ theorem corevm_update_is_op (hν : Function.Injective ν) (e : Match.Ev) (vm : V
     rw [List.map_map, List.map_map] at this
     exact this
 
+/-! ### action names never change -/
+
+def NamesLe (vm vm' : VM) : Prop :=
+  ∀ k a', OMap.lookup k vm'.r.actions = some a' → ∃ a, OMap.lookup k vm.r.actions = some a ∧ a'.name = a.name
+
+theorem NamesLe.refl (vm : VM) : NamesLe vm vm := fun _ a' h => ⟨a', h, rfl⟩
+theorem NamesLe.trans {v1 v2 v3 : VM} (a : NamesLe v1 v2) (b : NamesLe v2 v3) : NamesLe v1 v3 := by
+  intro k x hx
+  obtain ⟨y, hy, e1⟩ := b k x hx
+  obtain ⟨z, hz, e2⟩ := a k y hy
+  exact ⟨z, hz, e1.trans e2⟩
+
+theorem vmSetAction_names (vm : VM) (a a0 : CoreVM.Action) (h0 : OMap.lookup a.uid vm.r.actions = some a0) (hn : a.name = a0.name) :
+    NamesLe vm (vmSetAction vm a) := by
+  intro k x hx
+  simp only [vmSetAction] at hx
+  by_cases hk : k = a.uid
+  · subst hk; rw [lookup_insert_same] at hx; cases hx; exact ⟨a0, h0, hn⟩
+  · rw [lookup_insert_ne a.uid k a hk] at hx; exact ⟨x, hx, rfl⟩
+
+theorem processEvent_name (a : CoreVM.Action) (e : Match.Ev) : (a.processEvent e).name = a.name := by
+  unfold CoreVM.Action.processEvent
+  split
+  · split
+    · rfl
+    · split
+      · rfl
+      · split
+        · rfl
+        · split
+          · rfl
+          · split <;> rfl
+  · rfl
+
+theorem innerNext_names (e : Match.Ev) (au : String) (vm : VM) (hw : WFA vm) : NamesLe vm (innerNext e au vm) := by
+  unfold innerNext
+  cases h : OMap.lookup au vm.r.actions with
+  | none => exact NamesLe.refl vm
+  | some a =>
+    simp only
+    split
+    · have huid : a.uid = au := hw au a h
+      exact vmSetAction_names vm _ a (by rw [processEvent_uid, huid]; exact h) (processEvent_name a e)
+    · exact NamesLe.refl vm
+
+theorem inner_names (e : Match.Ev) : ∀ (l : List String) (vm vm' : VM), WFA vm →
+    forIn l PUnit.unit (innerStep e) vm = .ok PUnit.unit vm' → NamesLe vm vm'
+  | [], vm, vm', _, h => by rw [List.forIn_nil] at h; cases h; exact NamesLe.refl vm
+  | au :: l, vm, vm', hw, h => by
+    rw [List.forIn_cons] at h
+    simp only [bind, EStateM.bind, innerStep_run] at h
+    exact (innerNext_names e au vm hw).trans (inner_names e l _ vm' (innerNext_wfa e au vm hw) h)
+
+theorem update_names (hν : Function.Injective ν) (e : Match.Ev) (vm vm' : VM) (hw : WFA vm) (hi : WFI vm)
+    (h : CoreVM.updateActionStatusByEvent e vm = .ok () vm') : NamesLe vm vm' := by
+  -- the run is the one constructed in `outer_loop`; names: by induction over the same iteration
+  have key : ∀ (is : List Inst) (v v' : VM), WFA v →
+      (∀ i, i ∈ is → findInst v.ixs.ix i.uid = some i ∧ ∃ x, OMap.lookup i.uid v.r.fx = some x) →
+      forIn is PUnit.unit (outerStep e) v = .ok PUnit.unit v' → NamesLe v v' := by
+    intro is
+    induction is with
+    | nil => intro v v' _ _ h; rw [List.forIn_nil] at h; cases h; exact NamesLe.refl v
+    | cons i is ih =>
+      intro v v' hwv hall h
+      obtain ⟨hi', ⟨x, hx⟩⟩ := hall i (List.mem_cons_self ..)
+      rw [List.forIn_cons] at h
+      simp only [bind, EStateM.bind] at h
+      by_cases hl : i.status.listening = true
+      · obtain ⟨v1, r1, w1, f1, g1, _⟩ := inner_loop ν (fun _ => 0) hν e x.actionUids v hwv
+        have hrun : outerStep e i PUnit.unit v = .ok (ForInStep.yield PUnit.unit) v1 := by
+          unfold outerStep
+          simp only [hl, if_true, bind, EStateM.bind, getInstX_run_some i.uid v x hx, r1]
+          rfl
+        rw [hrun] at h
+        have n1 := inner_names e x.actionUids v v1 hwv r1
+        exact n1.trans (ih v1 v' w1 (fun j hj => by
+          obtain ⟨a, b⟩ := hall j (List.mem_cons_of_mem _ hj)
+          rw [f1, g1]; exact ⟨a, b⟩) h)
+      · have hrun : outerStep e i PUnit.unit v = .ok (ForInStep.yield PUnit.unit) v := by
+          unfold outerStep
+          simp only [hl, if_false]
+          rfl
+        rw [hrun] at h
+        exact ih v v' hwv (fun j hj => hall j (List.mem_cons_of_mem _ hj)) h
+  rw [update_unfold] at h
+  simp only [bind, EStateM.bind] at h
+  have hix : getIx vm = .ok vm.ixs.ix vm := rfl
+  rw [hix] at h
+  simp only at h
+  cases hf : forIn vm.ixs.ix.insts PUnit.unit (outerStep e) vm with
+  | error er v2 => rw [hf] at h; cases h
+  | ok u v2 =>
+    rw [hf] at h
+    cases h
+    cases u
+    exact key vm.ixs.ix.insts vm _ hw (fun i hmem => ⟨find?_of_nodup vm.ixs.ix.insts hi.2 i hmem, by
+      apply lookup_isSome_of_mem
+      rw [← hi.1]
+      exact List.mem_map_of_mem (f := (·.uid)) hmem⟩) hf
+
 /-! ### `releaseAction ↦ stopAction1` (one iteration of the "abort all started actions" loop), modulo outgoing events -/
 
 /-- forget the outgoing events (`absVM` does not abstract them) -/
@@ -746,7 +846,7 @@ theorem releaseAction_refines (hν : Function.Injective ν) (au : String) (vm : 
     (OMap.lookup au vm.r.actions = none ∧ releaseAction au vm = .error (.py "KeyError" au) vm ∧
       stopAction1 (absVM ν φ vm) (ν au) = .error .key) ∨
     ∃ vm' t, releaseAction au vm = .ok () vm' ∧ stopAction1 (absVM ν φ vm) (ν au) = .ok t ∧ absVM ν φ vm' = so t ∧
-      WFA vm' ∧ vm'.ixs = vm.ixs ∧ vm'.r.fx = vm.r.fx := by
+      WFA vm' ∧ vm'.ixs = vm.ixs ∧ vm'.r.fx = vm.r.fx ∧ NamesLe vm vm' := by
   have hga : getAction? au vm = .ok (OMap.lookup au vm.r.actions) vm := rfl
   have habs0 : (absVM ν φ vm).out = [] := rfl
   unfold releaseAction stopAction1
@@ -776,7 +876,16 @@ theorem releaseAction_refines (hν : Function.Injective ν) (au : String) (vm : 
             (vmSetAction (vmSetAction vm { a with scopeCount := 0 })
               { ({ a with scopeCount := 0 } : CoreVM.Action) with status := .stopping }) = .ok (stopEv a) vm2 := by
           rw [hse, ← hA]; exact hgen
-        refine ⟨vm2, _, ?_, rfl, ?_, w2, ?_, ?_⟩
+        have hn2 : NamesLe vm vm2 := by
+          have nA : NamesLe vm vmA := by
+            rw [hA]
+            have n1 : NamesLe vm (vmSetAction vm { a with scopeCount := 0 }) :=
+              vmSetAction_names vm _ a (by rw [huid]; exact h) rfl
+            refine n1.trans (vmSetAction_names _ _ { a with scopeCount := 0 } ?_ rfl)
+            show OMap.lookup a.uid (OMap.insert a.uid _ vm.r.actions) = _
+            rw [lookup_insert_same]
+          exact nA.trans (update_names ν hν (stopEv a) (vmOut vmA (stopEv a)) vm2 hwO hiA r2)
+        refine ⟨vm2, _, ?_, rfl, ?_, w2, ?_, ?_, hn2⟩
         · rw [hgen']; rfl
         · rw [so_generateUmim _ _ _ (by rfl), e2]
           have hO : absVM ν φ (vmOut vmA (stopEv a)) = absVM ν φ vmA := rfl
@@ -786,11 +895,130 @@ theorem releaseAction_refines (hν : Function.Injective ν) (au : String) (vm : 
         · rw [g2, hA]; rfl
       · have hz' : ((a.scopeCount - 1 == 0) = false) := by simp [hz]
         simp only [hz, hz', if_false, Bool.false_eq_true]
-        refine ⟨vmSetAction vm { a with scopeCount := a.scopeCount - 1 }, _, rfl, rfl, ?_, vmSetAction_wfa _ _ hw, rfl, rfl⟩
+        refine ⟨vmSetAction vm { a with scopeCount := a.scopeCount - 1 }, _, rfl, rfl, ?_, vmSetAction_wfa _ _ hw, rfl, rfl,
+          vmSetAction_names vm _ a (by rw [huid]; exact h) rfl⟩
         rw [absVM_vmSetAction ν φ hν]
         simp only [huid, absAct]
         rfl
     · simp only [hr, if_false, Bool.false_eq_true]
-      exact ⟨vm, _, rfl, rfl, rfl, hw, rfl, rfl⟩
+      exact ⟨vm, _, rfl, rfl, rfl, hw, rfl, rfl, NamesLe.refl vm⟩
+
+/-! ### the "abort all started actions that have not finished yet" loop: `for au in action_uids: releaseAction au ↦ stopActions` -/
+
+/-- the Lifetime functions do not read the outgoing events: results agree up to `out` -/
+theorem updActs_so (e : AEv) : ∀ (l : List Nat) (s : State), so (updActs e s l) = updActs e (so s) l
+  | [], s => rfl
+  | a :: as, s => by
+    simp only [updActs]
+    have : (so s).actions = s.actions := rfl
+    rw [this]
+    split
+    · split
+      · exact updActs_so e as (Lifetime.setAction s a _)
+      · exact updActs_so e as s
+    · exact updActs_so e as s
+
+theorem updFlows_so (e : AEv) : ∀ (l : List Nat) (s : State), so (updFlows e s l) = updFlows e (so s) l
+  | [], s => rfl
+  | u :: us, s => by
+    simp only [updFlows]
+    have : (so s).flows = s.flows := rfl
+    rw [this]
+    split
+    · split
+      · rw [updFlows_so e us, updActs_so]
+      · exact updFlows_so e us s
+    · exact updFlows_so e us s
+
+theorem so_generateUmim' (s : State) (o : OEv) (e : AEv) : so (generateUmim s o e) = Lifetime.updateActionStatusByEvent (so s) e := by
+  unfold generateUmim Lifetime.updateActionStatusByEvent
+  rw [updFlows_so]
+  rfl
+
+/-- `stopAction1` commutes with forgetting the outgoing events -/
+theorem stopAction1_so (s : State) (a : Nat) :
+    (match stopAction1 s a with | .ok t => Except.ok (so t) | .error e => .error e) =
+    (match stopAction1 (so s) a with | .ok t => Except.ok (so t) | .error e => .error e) := by
+  unfold stopAction1
+  have : (so s).actions = s.actions := rfl
+  rw [this]
+  cases s.actions a with
+  | none => rfl
+  | some x =>
+    simp only
+    by_cases hr : x.status.running = true
+    · simp only [hr, if_true]
+      by_cases hz : (x.count - 1 == 0) = true
+      · simp only [hz, if_true, so_generateUmim']; rfl
+      · simp only [hz, Bool.false_eq_true, if_false]; rfl
+    · simp only [hr, Bool.false_eq_true, if_false]; rfl
+
+theorem stopActions_so : ∀ (l : List Nat) (s : State),
+    (match stopActions s l with | .ok t => Except.ok (so t) | .error e => .error e) =
+    (match stopActions (so s) l with | .ok t => Except.ok (so t) | .error e => .error e)
+  | [], s => rfl
+  | a :: as, s => by
+    simp only [stopActions]
+    have h1 := stopAction1_so s a
+    cases hs : stopAction1 s a with
+    | error e =>
+      rw [hs] at h1
+      cases hs' : stopAction1 (so s) a with
+      | error e' => rw [hs'] at h1; simp only at h1 ⊢; exact h1
+      | ok t' => rw [hs'] at h1; cases h1
+    | ok t =>
+      rw [hs] at h1
+      cases hs' : stopAction1 (so s) a with
+      | error e' => rw [hs'] at h1; cases h1
+      | ok t' =>
+        rw [hs'] at h1
+        simp only [Except.ok.injEq] at h1
+        simp only
+        rw [stopActions_so as t, h1, ← stopActions_so as t']
+
+/-- every action in the table has a well-behaved Stop-event name; names never change -/
+def WFG (vm : VM) : Prop := ∀ k a, OMap.lookup k vm.r.actions = some a → GoodStop a.name
+
+/-- body of the loop in `_abort_flow` / `_finish_flow` / `EndScope` -/
+def releaseStep (au : String) (_ : PUnit) : M (ForInStep PUnit) := do
+  releaseAction au
+  pure (ForInStep.yield PUnit.unit)
+
+/-- **the stop-actions loop, normal termination**: if the CoreVM loop over `l` returns normally from a well-formed state
+    (`WFG`: the Stop-event names of all actions are well-behaved), then `Lifetime.stopActions` over the abstracted list returns normally
+    and the abstract post-states agree up to the outgoing events -/
+theorem release_loop (hν : Function.Injective ν) : ∀ (l : List String) (vm vm' : VM), WFA vm → WFI vm → WFG vm →
+    forIn l PUnit.unit releaseStep vm = .ok PUnit.unit vm' →
+    ∃ t, stopActions (absVM ν φ vm) (l.map ν) = .ok t ∧ absVM ν φ vm' = so t ∧ WFA vm' ∧ vm'.ixs = vm.ixs ∧ vm'.r.fx = vm.r.fx
+  | [], vm, vm', hw, _, _, h => by
+    have : vm' = vm := by
+      rw [List.forIn_nil] at h
+      cases h; rfl
+    subst this
+    exact ⟨absVM ν φ vm', rfl, rfl, hw, rfl, rfl⟩
+  | au :: l, vm, vm', hw, hi, hg, h => by
+    rw [List.forIn_cons] at h
+    simp only [releaseStep, bind, EStateM.bind] at h
+    rcases releaseAction_refines ν φ hν au vm hw hi (fun a ha => hg au a ha) with ⟨_, hr, _⟩ | ⟨vm1, t1, hr, hs1, habs1, hw1, hix1, hfx1, hn1⟩
+    · rw [hr] at h; cases h
+    · rw [hr] at h
+      have hi1 : WFI vm1 := by unfold WFI; rw [hix1, hfx1]; exact hi
+      have h' : forIn l PUnit.unit releaseStep vm1 = .ok PUnit.unit vm' := h
+      have hg1 : WFG vm1 := fun k x hx => by
+        obtain ⟨y, hy, e⟩ := hn1 k x hx
+        rw [e]; exact hg k y hy
+      obtain ⟨t2, hs2, habs2, hw2, hix2, hfx2⟩ := release_loop hν l vm1 vm' hw1 hi1 hg1 h'
+      rw [habs1] at hs2
+      -- transport along `so`
+      have hso := stopActions_so (l.map ν) t1
+      rw [hs2] at hso
+      cases hs3 : stopActions t1 (l.map ν) with
+      | error e => rw [hs3] at hso; cases hso
+      | ok t3 =>
+        rw [hs3] at hso
+        simp only [Except.ok.injEq] at hso
+        refine ⟨t3, ?_, ?_, hw2, hix2.trans hix1, hfx2.trans hfx1⟩
+        · simp only [List.map_cons, stopActions, hs1]; exact hs3
+        · rw [habs2, ← hso]
 
 end NemoVerif.Lifetime.Refine
